@@ -1,0 +1,32 @@
+//go:build verif
+
+package vgirpc
+
+import (
+	"fmt"
+	"reflect"
+
+	"github.com/apache/arrow-go/v18/arrow"
+)
+
+// More hooks for property C08: the unary RESULT path (resultSchema +
+// serializeResult), so that values of named types with methods can be driven
+// through the top-level buildArray call as well as through struct fields.
+
+// VerifC08ResultSchema is resultSchema.
+func VerifC08ResultSchema(t reflect.Type) (*arrow.Schema, error) { return resultSchema(t) }
+
+// VerifC08SerializeResult is serializeResult under the schema resultSchema
+// derives for t; a panic is reported as an error.
+func VerifC08SerializeResult(t reflect.Type, value any) (b arrow.RecordBatch, err error) {
+	defer func() {
+		if r := recover(); r != nil {
+			b, err = nil, fmt.Errorf("PANIC: %v", r)
+		}
+	}()
+	s, err := resultSchema(t)
+	if err != nil {
+		return nil, err
+	}
+	return serializeResult(s, value)
+}
